@@ -92,9 +92,9 @@ pub fn from_impl_step(s: &jp::Path) -> Step {
         jp::Path::Current => Step::Current,
         jp::Path::DotWildcard => Step::DotWild,
         jp::Path::BracketWildcard => Step::BracketWild,
-        jp::Path::DotField(n) => Step::Dot(n.to_string()),
-        jp::Path::ColonField(n) => Step::Colon(n.to_string()),
-        jp::Path::ObjectField(n) => Step::ObjField(n.to_string()),
+        jp::Path::DotField(n) => Step::Dot(crate::conv::safe_string(n)),
+        jp::Path::ColonField(n) => Step::Colon(crate::conv::safe_string(n)),
+        jp::Path::ObjectField(n) => Step::ObjField(crate::conv::safe_string(n)),
         jp::Path::ArrayIndices(v) => Step::Indices(
             v.iter()
                 .map(|a| match a {
@@ -115,7 +115,7 @@ pub fn from_impl_expr(e: &jp::Expr) -> Expr {
             jp::PathValue::Null => Lit::Null,
             jp::PathValue::Boolean(b) => Lit::Bool(*b),
             jp::PathValue::Number(n) => Lit::Num(crate::conv::from_num_raw(n)),
-            jp::PathValue::String(s) => Lit::Str(s.to_string()),
+            jp::PathValue::String(s) => Lit::Str(crate::conv::safe_string(s)),
         }),
         jp::Expr::BinaryOp { op, left, right } => {
             let (l, r) = (Box::new(from_impl_expr(left)), Box::new(from_impl_expr(right)));
